@@ -18,6 +18,11 @@ ASSUMPTIONS = ["sync.Mutex / sync.Cond semantics (Wait releases the lock and re-
 
 def corpus():
     return [
+        "progress.stress 8 100000 0 2",                     # C02k: every second record is a drop, against a snapshot loop
+        "progress.stress 4 200000 3 1",
+        "pool.script 2 18446744073709551615 t2;s;t3;s;f2;s",  # C02l: a limit beyond 2^63 is no limit at all
+        "pool.script 1 9223372036854775809 t4;s;f1;s;x",
+        "pool.script 2 9223372036854775808 t3;s;t1;s;f2;s;x",
         "run prop=C02 mode=constant rate=3000000/100ms dist=none dur=250 conc=1 body=400 timeout=5000",   # D22: millions pending when the run ends
         "pool.script 2 0 T7;x;r",                        # D4: tick racing with shutdown
         "pool.script 1 1 t1;s;L;f1;t1;W;t5;l;s",         # D5: tick between the limit path's discard and cancel
